@@ -46,7 +46,21 @@ pub const OPS: &[&str] = &[
     "iszero", "isneg", "ispos", "tostr", "rt",
 ];
 
+/// one case; an operation that panics although it is total by its type (`cmp`, `eq`, `neg`, `to_string`, the
+/// checked forms, …) is reported as `panicked=1` — a finding, not a crash of the harness
 pub fn run_case(op: &str, a: Integer, b: Integer) -> String {
+    match catch_unwind(AssertUnwindSafe(|| run_case_inner(op, a, b))) {
+        Ok(s) => s,
+        Err(_) => format!(
+            "I op={} {} {} ok=0 panicked=1 rn=0 rv=0 rb=0 ro=9 rp=9 lt=0 ge=0 s=PANIC js=0",
+            op,
+            fmt_int("a", &a),
+            fmt_int("b", &b)
+        ),
+    }
+}
+
+fn run_case_inner(op: &str, a: Integer, b: Integer) -> String {
     let head = format!("I op={} {} {}", op, fmt_int("a", &a), fmt_int("b", &b));
     let int_res = |res: Option<Integer>| match res {
         Some(x) => format!("{} ok=1 {}", head, fmt_int("r", &x)),
